@@ -57,7 +57,7 @@ class NCVar:
         object.__setattr__(self, "dimensions", tuple(dims))
         object.__setattr__(self, "_fill", fill_value)
         object.__setattr__(self, "_cells", {})
-        object.__setattr__(self, "_atts", {})
+        object.__setattr__(self, "_atts", {} if fill_value is None else {"_FillValue": fill_value})  # netCDF4 lists a declared fill value among the attributes
 
     # attributes -------------------------------------------------------------
     def __setattr__(self, k, v):
